@@ -49,7 +49,16 @@ Fixpoint dv_zip (f : Q -> Q -> Q) (a b : dvec) : dvec :=
 
 Definition dv_add (a b : dvec) : dvec := dv_zip Qplus a b.                 (* operator+=(VectorBase) *)
 Definition dv_sub (a b : dvec) : dvec := dv_zip Qminus a b.                (* operator-=(VectorBase) *)
-Definition dv_scale (x : Q) (a : dvec) : dvec := map (fun y => y * x) a.   (* operator*=(x) *)
+Definition dv_scale (x : Q) (a : dvec) : dvec := map (fun y => y * x) a.   (* SVectorBase::remove(int n, int m) as documented ("remove nonzeros n thru m", 0 <= n <= m < size()): the last
+   min(m-n+1, size()-m-1) non-zeros move into the hole, the last one first *)
+Definition sv_remove_range (n m : nat) (v : svec) : svec :=
+  let size := length v in
+  let count := (m + 1 - n)%nat in
+  let tail := (size - (m + 1))%nat in
+  let cpy := Nat.min count tail in
+  firstn n v ++ rev (skipn (size - cpy) v) ++ firstn (size - count - n - cpy) (skipn (n + cpy) v).
+
+(* operator*=(x) *)
 Definition dv_multadd (x : Q) (b a : dvec) : dvec := dv_zip (fun y z => y + x * z) a b.  (* a.multAdd(x,b) *)
 Definition dv_neg (a : dvec) : dvec := map Qopp a.
 
